@@ -64,6 +64,7 @@ def gen_spec(rng: random.Random, mode: str):
             "df": rng.choice([1.0, 0.5, 0.25, 0.75]), "notional": rng.choice([1.0, 2.0, 0.5, 4.0]),
             "salt": rng.randrange(0, 17), "ctab": [rng.choice([0.5, 1.0, 2.0, 3.0, 4.0]) for _ in range(Lmax + 3)],
             "dim": rng.choice([1, 1, 1, 2, 3]), "seed": rng.randrange(1 << 30),
+            "regress": rng.random() < 0.15,      # rates not given: the engine regresses alpha, beta, gamma (log2_regression)
             "kmax": rng.choice([1, 2, 3, 4, 5, 6, 8, 10, 12]), "pconv": rng.choice([0.0, 0.0, 0.2, 0.4, 0.8])}
 
 
@@ -117,6 +118,8 @@ def run_engine_seq(specs, allocs=None, fixed=False, cv=None, rates=(1.0, 2.0, 1.
     sh = Shared()
     first = specs[0]
     cp = ScriptedCoupling(sample_fn(first["salt"]), cost_fn(first["ctab"]), df=first["df"], shared=sh)
+    if first.get("regress"):
+        rates = (None, None, None)
     conf = ConfigurationMultiLevel(convergence_rates=ConvergenceRates(*rates), convergence_criteria=None,
                                    initial_level=first["L0"], maximum_level=first["Lmax"], initial_mc_paths=first["N0"],
                                    nb_of_processes=1, seed=1, control_variates=cv)
@@ -141,7 +144,7 @@ def run_engine_seq(specs, allocs=None, fixed=False, cv=None, rates=(1.0, 2.0, 1.
             warnings.simplefilter("ignore")
             try:
                 st = eng.price_with_constant_mc_paths_and_level(product) if fixed else eng.price(product, rmse=0.125)
-            except (IndexError, ValueError) as ex:
+            except (IndexError, ValueError, np.linalg.LinAlgError) as ex:
                 obs["raised"] = f"{type(ex).__name__}: {ex}"
                 obs["shared"] = sh
                 break
